@@ -54,6 +54,7 @@ type Glue interface {
 	HasLexer() bool
 	HasParser() bool
 	NewLexer(src []byte) Lexer
+	NewLexerFile(path string) (Lexer, error)
 	NewParser() Parser
 	MakeToken(name, lit string, off, line, col int) interface{}
 	TokInfo(x interface{}) (TokInfo, bool)
@@ -72,8 +73,9 @@ type Input struct {
 	Text      string    `json:"text,omitempty"`
 	Tokens    []TokSpec `json:"tokens,omitempty"`
 	UseTokens bool      `json:"use_tokens,omitempty"`
-	Label     string    `json:"label,omitempty"` // valid | bad | recover | deep (informational)
-	Cache     bool      `json:"cache,omitempty"` // the scanner hands out the SAME token objects every time this input is parsed by this client (a replaying scanner)
+	Label     string    `json:"label,omitempty"`     // valid | bad | recover | deep (informational)
+	FromFile  bool      `json:"from_file,omitempty"` // the lexer is created with NewLexerFile on a file holding Text
+	Cache     bool      `json:"cache,omitempty"`     // the scanner hands out the SAME token objects every time this input is parsed by this client (a replaying scanner)
 }
 
 type Fault struct {
@@ -357,9 +359,33 @@ func (e *env) newLexFor(in *Input, ctx interface{}) Lexer {
 	if in.UseTokens || !e.g.HasLexer() {
 		return nil
 	}
-	l := e.g.NewLexer([]byte(in.Text))
+	l := e.lexerFor(in.Text, in.FromFile)
 	if ctx != nil {
 		l.SetContext(ctx)
+	}
+	return l
+}
+
+// lexerFor creates a lexer over text, through NewLexerFile if asked to.  The file
+// name is a function of the text, so a used and a fresh lexer see the same path.
+func (e *env) lexerFor(text string, fromFile bool) Lexer {
+	if !fromFile {
+		return e.g.NewLexer([]byte(text))
+	}
+	dir := os.Getenv("VERIF_SRCDIR")
+	if dir == "" {
+		dir = os.TempDir()
+	}
+	h := digestAdd(14695981039346656037, text)
+	path := dir + "/src-" + strconv.FormatUint(h, 16) + ".txt"
+	if _, err := os.Stat(path); err != nil {
+		if err := os.WriteFile(path, []byte(text), 0o644); err != nil {
+			panic("harness: cannot write source file: " + err.Error())
+		}
+	}
+	l, err := e.g.NewLexerFile(path)
+	if err != nil || l == nil {
+		panic(fmt.Sprintf("harness: NewLexerFile(%s): %v", path, err))
 	}
 	return l
 }
